@@ -1539,7 +1539,7 @@ class Chemical:
 
         # Energy
         self._Hfus = heat_of_fusion(CAS) or 0. if Hfus is None else Hfus
-        self._Sfus = None if Hfus is None or Tm is None else Hfus / Tm 
+        self._Sfus = self._Hfus / self._Tm if self._Tm and self._Hfus is not None else None
         
         # Other
         self._dipole = dipole or dipole_moment(CAS)
